@@ -8,6 +8,7 @@ Oracle: an independent numpy machine over immutable (matrix, pivot) values (`xf_
 from __future__ import annotations
 
 import itertools
+import warnings
 
 import numpy as np
 
@@ -97,6 +98,134 @@ def gen_case(rng):
     return {"exact": exact and all(X.is_exact_op(o) for o in ops), "probes": gen_probes(rng, exact), "ops": ops}
 
 
+def pow10(k: int) -> float:
+    return float(f"1e{k}")  # the correctly rounded literal a user would write
+
+
+def gen_strong_case(rng):
+    """family "strong": unit-conversion-like scalings by 10^-k / 10^k (k <= 7) - alone, before or after ordinary
+    translate/rotate/reflect/mirror/set_pivot calls, there and back again, in two steps, snapshotted with
+    save_state/restore_state or inside `with` blocks.  The conditioning of the matrix (10^k .. 10^2k with pivots
+    and translations) is what the ordinary family (magnification <= 2^6) never reaches."""
+    shape = rng.choice(["alone", "first", "last", "last", "there-and-back", "two-step", "snapshot"])
+    k = rng.randint(1, 7)
+    down = rng.random() < 0.7
+    names = X.NAMES[: rng.choice([1, 2])]
+    budget = {"log": 0.0, "max": 2.0}
+    st = {"depth": 0, "open": 0, "rot": 0}
+    ops, saved = [], set()
+
+    def xf():
+        while True:
+            op = X.gen_xf_op(rng, False, budget)
+            if op[0] == "rotate" and op[1] != 0.0:
+                if st["rot"] >= 6:  # keeps the model's exact rationals printable
+                    continue
+                st["rot"] += 1
+            return op
+
+    def ordinary(n):
+        for _ in range(n):
+            r = rng.random()
+            if r < 0.60:
+                ops.append(xf())
+            elif r < 0.70:
+                ops.append(("save", None))
+                st["depth"] += 1
+            elif r < 0.78:
+                nm = rng.choice(names)
+                ops.append(("save", nm))
+                saved.add(nm)
+            elif r < 0.86:
+                if st["depth"]:
+                    ops.append(("restore", None))
+                    st["depth"] -= 1
+            elif r < 0.92:
+                if saved:
+                    ops.append(("restore", rng.choice(sorted(saved))))
+            else:
+                ops.append(("enter-named", rng.choice(sorted(saved))) if saved and rng.random() < 0.5 else ("enter-current",))
+                ops.append(xf())
+                if rng.random() < 0.5 or st["open"] >= 2:
+                    ops.append(("exit", rng.random() < 0.4))
+                else:
+                    st["open"] += 1
+
+    def strong(kk, dn):
+        f = pow10(-kk if dn else kk)
+        r = rng.random()
+        if r < 0.55:
+            fs = [f]
+        elif r < 0.65:
+            fs = [-f]
+        elif r < 0.75:
+            fs = [f, f]          # z keeps its unit
+        elif r < 0.85:
+            fs = [f, -f, f]
+        elif r < 0.93:
+            fs = [f, f, pow10((-kk if dn else kk) + rng.choice([-1, 1]))]
+        else:
+            fs = [f * rng.choice([2.54, 0.5, 25.4])]
+        r = rng.random()
+        if r < 0.45:
+            ops.append(("pivot", [0.0, 0.0, 0.0]))
+        elif r < 0.60:
+            ops.append(("pivot", [X.grid(rng, 32) / 4, X.grid(rng, 32) / 4, 0.0]))
+        ops.append(("scale", fs))
+
+    if shape == "alone":
+        strong(k, down)
+        if rng.random() < 0.5:
+            ops.append(rng.choice([("rotate", rng.choice([45.0, 90.0, 30.0, -17.25]), rng.choice(X.AXES)),
+                                   ("mirror", rng.choice(["xy", "yz", "zx"]))]))
+    elif shape == "first":
+        strong(k, down)
+        ordinary(rng.randint(1, 6))
+    elif shape == "last":
+        ordinary(rng.randint(1, 5))
+        strong(k, down)
+        ordinary(rng.randint(0, 2))
+    elif shape == "there-and-back":
+        ordinary(rng.randint(0, 2))
+        strong(k, down)
+        ordinary(rng.randint(1, 4))
+        strong(k, not down)
+        ordinary(rng.randint(0, 2))
+    elif shape == "two-step":
+        k1 = rng.randint(1, 6)
+        k2 = rng.randint(1, 7 - k1)
+        ordinary(rng.randint(0, 2))
+        strong(k1, down)
+        ordinary(rng.randint(0, 3))
+        strong(k2, down)
+        ordinary(rng.randint(0, 2))
+    else:  # snapshot: the strongly scaled state is saved, modified and restored
+        ordinary(rng.randint(0, 2))
+        strong(k, down)
+        nm = rng.choice([None, None] + names)
+        ops.append(("save", nm))
+        if nm is None:
+            st["depth"] += 1
+        else:
+            saved.add(nm)
+        ordinary(rng.randint(1, 3))
+        ops.append(("restore", nm))
+        if nm is None:
+            st["depth"] = max(0, st["depth"] - 1)
+        ordinary(rng.randint(0, 2))
+    for _ in range(st["open"]):
+        ops.append(("exit", rng.random() < 0.3))
+    for nm in sorted(saved):
+        ops.append(("restore", nm))
+    for _ in range(min(st["depth"], 4)):
+        ops.append(("restore", None))
+    probes = gen_probes(rng, False)[:3]
+    if rng.random() < 0.25:   # drawings in small units have large coordinates (and vice versa)
+        m = pow10(rng.randint(1, min(k, 4)) * (1 if down else -1))
+        probes = [[c * m for c in p] for p in probes]
+    return {"exact": False, "family": "strong", "probes": probes, "ops": ops}
+
+
 # exhaustive alphabet (thorough): 10 calls, exact arithmetic
 ALPHABET = [
     ("translate", [1.0, 0.5, -2.0]), ("scale", [2.0]), ("chain", [0.0, -1.0, 0.0, 1.0, 0.0, 0.0, 0.0, 0.0, 1.0]),
@@ -124,11 +253,17 @@ def exhaustive_cases(maxlen):
 
 
 def jsonable(case):
-    return {"exact": case["exact"], "probes": case["probes"], "ops": [list(o) for o in case["ops"]]}
+    d = {"exact": case["exact"], "probes": case["probes"], "ops": [list(o) for o in case["ops"]]}
+    if case.get("family"):
+        d["family"] = case["family"]
+    return d
 
 
 def from_json(d):
-    return {"exact": d["exact"], "probes": d["probes"], "ops": [tuple(o) for o in d["ops"]]}
+    c = {"exact": d["exact"], "probes": d["probes"], "ops": [tuple(o) for o in d["ops"]]}
+    if d.get("family"):
+        c["family"] = d["family"]
+    return c
 
 
 # ------------------------------------------------------------------ oracle (independent of the Lean model)
@@ -175,6 +310,171 @@ def roundtrip_oracle(sess, probes):
     return None
 
 
+# ------------------------------------------------------------------ family "strong": condition-aware tolerances
+U = 2.0 ** -53   # unit roundoff of IEEE double
+# Tolerances of the strong family = K_* x (first-order rounding bound, see `strong_units`), per coordinate, absolute.
+# Measured on the unchanged tree over 16 seeds x 3000 generated cases (~310 000 calls, 3 probes each): the worst ratio
+# |error| / bound was 1.28 (round trip), 0.30 (apply), 0.25 (reverse), 0.83 (pivot).  Each K leaves a factor >= 200 above
+# that; the worst ratios of every run are written to the evidence (`strong_margins`).  For comparison, coordinates
+# snapped to 12 decimals under scale(1e-6) give ratios of 1e6 .. 1e10 in the round trip.
+K_RT = 256.0     # round trip reverse(apply(p)) = p
+K_AP = 64.0      # apply_transform against the reference (and against the exact model)
+K_RV = 64.0      # reverse_transform against the reference (and against the exact model)
+K_PV = 256.0     # the pivot stays fixed
+WORST = {"rt": 0.0, "ap": 0.0, "rv": 0.0, "pivot": 0.0}
+
+
+class ErrRef(X.RefMachine):
+    """The reference machine, whose values (M, pivot, E) also carry E: an entrywise first-order bound on
+    |matrix computed in doubles - exact matrix of the call history| (running error analysis; fl(AB) = AB + D with
+    |D| <= 4u|A||B| for 4x4 factors, Higham, Accuracy and Stability of Numerical Algorithms, 3.5):
+
+        L about pivot p :  N = T(p) L T(-p),  dN = 8u |T(p)||L||T(-p)| + |T(p)| dL |T(-p)|
+                           M' = N M,          E' = |N| E + (dN + 4u|N|) |M|
+        translate v     :  M' = T(v) M,       E' = |T(v)| E + 4u |T(v)||M|
+
+    dL = 4u on the 3x3 block for rotate / reflect (scipy's quaternion route vs the textbook matrix; normalising the
+    normal), 0 for scale / mirror / the exact right-angle blocks."""
+
+    def __init__(self):
+        super().__init__()
+        self.cur = (np.eye(4), np.zeros(3), np.zeros((4, 4)))
+        self.last = None   # (|T(p)||L||T(-p)|, M before, E before) of the latest call about the pivot
+        self._dl = 0.0
+
+    def _about(self, lin3):
+        M, p, E = self.cur
+        L = np.eye(4)
+        L[:3, :3] = lin3
+        Tp, Tm = X._eye_t(p), X._eye_t(-p)
+        N = Tp @ L @ Tm
+        dL = np.zeros((4, 4))
+        dL[:3, :3] = self._dl
+        P = np.abs(Tp) @ (np.abs(L) + dL) @ np.abs(Tm)   # |L| of the implementation is within dL of this one
+        dN = 8 * U * P + np.abs(Tp) @ dL @ np.abs(Tm)
+        self.last = (P, M, E)
+        self.cur = (N @ M, p, np.abs(N) @ E + (dN + 4 * U * np.abs(N)) @ np.abs(M))
+
+    def step(self, op) -> str:
+        k = op[0]
+        if k == "translate":
+            M, p, E = self.cur
+            T = X._eye_t(np.array(op[1], dtype=float))
+            self.cur = (T @ M, p, np.abs(T) @ E + 4 * U * np.abs(T) @ np.abs(M))
+            return "ok"
+        if k == "pivot":
+            self.cur = (self.cur[0], np.array(op[1], dtype=float), self.cur[2])
+            return "ok"
+        self._dl = 4 * U if k in ("rotate", "reflect") else 0.0
+        return super().step(op)
+
+
+def _over(kind, got, want, unit, K):
+    """is |got - want| > K * unit somewhere?  (remembers the worst ratio |got - want| / unit seen)"""
+    d = np.abs(np.asarray(got, dtype=float) - np.asarray(want, dtype=float))
+    with np.errstate(divide="ignore", invalid="ignore"):
+        r = np.where(d == 0, 0.0, d / unit)
+    WORST[kind] = max(WORST[kind], float(np.max(r)))
+    return bool(np.any(d > K * unit))
+
+
+def abs_mats(M, E):
+    """(|M| + E, |M^-1| + |M^-1| E |M^-1|, P^T|L||U| + E): entrywise majorants of the matrix the implementation holds, of
+    its inverse and of its LU factors (E only matters where the reference has an exact zero and the implementation 1e-17
+    of dust)"""
+    from scipy.linalg import lu
+
+    aI = np.abs(np.linalg.inv(M))
+    pm, lo, up = lu(M)
+    return np.abs(M) + E, aI + aI @ E @ aI, pm @ np.abs(lo) @ np.abs(up) + E
+
+
+def strong_units(ref, p, mats):
+    """first-order rounding bounds (in absolute terms, per coordinate) for one probe in the state `ref.cur`:
+
+      apply          |M^ p~ - M p~|                <= (E + 4u|M|) |p~|           (twice: implementation and reference)
+      reverse        x^ = fl(inv(M^) p~), x = M^-1 p~:
+                     |x^ - x| <= |M^-1| E |x~|  +  c u |M^-1||M||M^-1||p~|       (perturbation of M; explicit inverse by
+                                                                                 LU, Higham 14.3 `method D`, and the product)
+      round trip     q = fl(X fl(M^ p~)),  X = inv(M^) as computed from the factorisation P M^ = L U:
+                     |q - p| <= |X M^ - I||p~| + |X| 4u |M||p~| + 4u|X||M p~|  <=  c u |M^-1| (P^T|L||U|) |p~|
+                     (the left residual of the LU-based inverse is c u |X||L||U|, Higham 14.3.2, whatever the history did
+                     to M^, so E does not enter; |L||U| >= |M|; this is double rounding amplified by the componentwise
+                     (Bauer-Skeel) condition number of the matrix, including the growth of its factorisation)
+    with p~ = (p, 1), c = 4 (the K_* absorb the true constants).  `mats` = `abs_mats(M, E)`."""
+    M, _, E = ref.cur
+    aM, aI, aLU = mats
+    pt = np.abs(np.array([*p, 1.0]))
+    x = np.abs(np.array([*ref.reverse(p), 1.0]))
+    ap = ((2 * E + 4 * U * aM) @ pt)[:3]
+    rv = (aI @ (2 * E @ x) + 4 * U * (aI @ (aM @ (aI @ pt))))[:3]
+    rt = (4 * U * (aI @ (aLU @ pt)))[:3]
+    return ap, rv, rt
+
+
+def oracle_strong(case, trace):
+    """the oracle of the strong family: same clauses as `oracle`, every numerical comparison against a tolerance that
+    follows the conditioning of the matrix, plus the round trip reverse(apply(p)) = p after every call"""
+    ref = ErrRef()
+    probes = case["probes"]
+    for i, e in enumerate(trace):
+        op = e["op"]
+        ref_pivot_before = ref.cur[1].copy()
+        want = ref.step(op)
+        o = e["obs"]
+        where = f"step {i} ({e['line'][:40]})"
+        if e["outcome"] != want:
+            return f"{where}: raised {e['outcome']}, the specification says {want}", "outcome"
+        if o["depth"] != len(ref.stack):
+            return f"{where}: stack depth {o['depth']}, expected {len(ref.stack)}", "stack"
+        if sorted(o["names"]) != sorted(ref.named):
+            return f"{where}: named states {sorted(o['names'])}, expected {sorted(ref.named)}", "names"
+        tol_ap, tol_rv = [], []
+        mats = abs_mats(ref.cur[0], ref.cur[2])
+        for p, got, back, rt in zip(probes, o["ap"], o["rv"], o["rt"]):
+            u_ap, u_rv, u_rt = strong_units(ref, p, mats)
+            tol_ap.append(K_AP * u_ap)
+            tol_rv.append(K_RV * u_rv)
+            if _over("rt", rt, p, u_rt, K_RT):
+                err = np.abs(np.array(rt) - np.array(p))
+                j = int(np.argmax(err - K_RT * u_rt))
+                return (f"{where}: reverse_transform(apply_transform{tuple(p)}) = {rt}: {X.AXES[j]} is off by {err[j]:.3e}, "
+                        f"rounding amplified by the conditioning of this matrix allows {K_RT * u_rt[j]:.3e}"), "roundtrip"
+            if _over("ap", got, ref.apply(p), u_ap, K_AP):
+                return (f"{where}: apply_transform{tuple(p)} = {got}, the immutable-value machine gives "
+                        f"{ref.apply(p).tolist()}"), "mapping"
+            if _over("rv", back, ref.reverse(p), u_rv, K_RV):
+                return (f"{where}: reverse_transform{tuple(p)} = {back}, expected {ref.reverse(p).tolist()}"), "reverse"
+        e["tol"] = (tol_ap, tol_rv)
+        if e.get("pivot") is not None and e["outcome"] == "ok":
+            piv, img = e["pivot"]
+            # img = M1^ fl(X0 piv~), M1 = N M0, N piv~ = piv~, X0 = inv(M0^):  |img - piv| <= c u |T(p)||L||T(-p)| (|L0||U0|) |M0^-1| |piv~|
+            P, M0, E0 = ref.last
+            _, aI0, aLU0 = abs_mats(M0, E0)
+            u_pv = (4 * U * (P @ (aLU0 @ (aI0 @ np.abs(np.array([*piv, 1.0]))))))[:3]
+            if _over("pivot", img, piv, u_pv, K_PV):
+                return (f"{where}: the pivot {tuple(piv)} is not fixed: its pre-image is now mapped to {tuple(img)}"), "pivot"
+            if not X.close(piv, ref_pivot_before, TOL):
+                return f"{where}: pivot in force {tuple(piv)}, expected {ref_pivot_before.tolist()}", "pivot"
+    return None, None
+
+
+class RTSession(X.Session):
+    """Session that also observes the round trip reverse_transform(apply_transform(p)) of every probe after every call"""
+
+    def observe(self) -> dict:
+        from gscrib.geometry import Point
+
+        o = super().observe()
+        # o["ap"][i] are the coordinates of the Point apply_transform(p_i) has just returned
+        o["rt"] = [[float(c) for c in self.t.reverse_transform(Point(*img))] for img in o["ap"]]
+        return o
+
+
+def is_strong(case):
+    return case.get("family") == "strong"
+
+
 # ------------------------------------------------------------------ comparison with the model
 def compare(case, trace, model_recs):
     """None if implementation and model agree on every step, else (step, impl, model)"""
@@ -189,6 +489,14 @@ def compare(case, trace, model_recs):
         if (e["outcome"], o["depth"], o["ctx"], ",".join(X.hexname(n) for n in o["names"])) != (
                 m["outcome"], m["depth"], m["ctx"], m["names"]):
             return i, ir, mr
+        if is_strong(case):
+            # the exact model against the doubles of the implementation: the rounding bounds of `strong_units`
+            if "tol" not in e:
+                continue   # the oracle stopped before this step
+            for got, want, tol in zip(o["ap"] + o["rv"], m["ap"] + m["rv"], e["tol"][0] + e["tol"][1]):
+                if np.any(np.abs(np.array(got) - np.array([float(c) for c in want])) > tol):
+                    return i, ir, mr
+            continue
         for got, want in zip(o["ap"] + o["rv"], m["ap"] + m["rv"]):
             if not X.close(got, [float(c) for c in want], TOL):
                 return i, ir, mr
@@ -199,9 +507,19 @@ def run_batch(R, cases, label, oracle_only=False, pipe=None):
     """implementation first (sequential), the model in a worker thread, judged by `finish_batch`"""
     traces, lines, spans = [], [], []
     for case in cases:
-        sess = X.Session(probes=case["probes"])
-        tr = sess.execute(case["ops"])
-        rt = roundtrip_oracle(sess, case["probes"])
+        if is_strong(case):
+            sess = RTSession(probes=case["probes"])
+            # scipy.linalg.inv warns ("ill-conditioned matrix", by the norm-wise condition number) e.g. for a plain
+            # translation by 1e8: recorded in the distribution report instead of being printed
+            with warnings.catch_warnings(record=True) as caught:
+                warnings.simplefilter("always")
+                tr, rt = sess.execute(case["ops"]), None   # the round trip is observed after every call
+            for w in caught[:1]:
+                R.count("strong:case-with-" + w.category.__name__)
+        else:
+            sess = X.Session(probes=case["probes"])
+            tr = sess.execute(case["ops"])
+            rt = roundtrip_oracle(sess, case["probes"])
         traces.append((tr, rt))
         start = len(lines)
         lines.append("reset")
@@ -221,7 +539,7 @@ def finish_batch(job):
     # the oracle does not need the model: evaluate it while the driver is still running
     verdicts = []
     for case, (tr, rt) in zip(cases, traces):
-        msg, tag = oracle(case, tr)
+        msg, tag = oracle_strong(case, tr) if is_strong(case) else oracle(case, tr)
         if not msg and rt:
             msg, tag = rt, "reverse"
         verdicts.append((msg, tag))
@@ -273,12 +591,32 @@ CORPUS = [
 ]
 
 
+_P5 = [[1.23456789, -2.3456789, 3.456789], [-31.4159265, 27.1828182, 0.57721566], [12.5, -40.0, 0.0]]
+STRONG_CORPUS = [
+    # nm -> mm, turned and mirrored; the same state snapshotted and restored
+    {"exact": False, "family": "strong", "probes": _P5,
+     "ops": [("scale", [1e-6]), ("rotate", 45.0, "z"), ("mirror", "yz"), ("save", "a"), ("translate", [1.0, 1.0, 1.0]),
+             ("restore", "a")]},
+    # mm -> um about a pivot, and back inside a block that is left by an exception
+    {"exact": False, "family": "strong", "probes": _P5,
+     "ops": [("pivot", [2.0, -1.0, 0.5]), ("scale", [1e3]), ("enter-current",), ("scale", [1e-3]), ("rotate", 30.0, "x"),
+             ("exit", True), ("translate", [0.5, 0.25, 0.0])]},
+    # the drawing is laid out in ordinary units first, the conversion comes last
+    {"exact": False, "family": "strong", "probes": _P5,
+     "ops": [("translate", [10.0, 20.0, 30.0]), ("rotate", 33.0, "y"), ("pivot", [0.0, 0.0, 0.0]), ("save", None),
+             ("scale", [1e-7, 1e-7]), ("restore", None), ("scale", [1e-5])]},
+]
+
+
 def run(R: core.Run):
     R.rule = ("random call histories (3..25 calls + drain) over translate/scale/rotate/chain/reflect/mirror/set_pivot/"
               "save/restore/delete with <= 3 names (some padded with blanks) and `with current_transform()` / "
               "`with named_transform()` blocks nested <= 3, left normally, by `raise`, or by a failing call unwinding "
               "k blocks; 45% on the exact dyadic grid (literal comparison), the rest with arbitrary angles/values "
-              "(1e-9); non-trivial = >= 4 call kinds incl. a save or a block; distinct by hash")
+              "(1e-9); non-trivial = >= 4 call kinds incl. a save or a block; distinct by hash; plus the family `strong`: "
+              "scalings by 10^-k / 10^k, k <= 7 (alone, before/after ordinary calls, there and back, in two steps, "
+              "snapshotted by save/restore or inside blocks), round trip reverse(apply(p)) = p checked after every call, all "
+              "numerical clauses with tolerances K x first-order rounding bound of the matrix at hand")
     R.assumptions = [
         "IEEE rounding inside numpy/scipy is not modelled: off-grid histories are compared at 1e-9 (relative to magnitude)",
         "scipy Rotation: the 3x3 block is read from the very call the code makes and handed to the model as exact rationals",
@@ -293,6 +631,12 @@ def run(R: core.Run):
     run_batch(R, CORPUS, "corpus")
     cases = [gen_case(R.rng) for _ in range(R.n(1000, 10000))]
     run_all(R, cases, "random", 250)
+    run_batch(R, STRONG_CORPUS, "strong-corpus")
+    run_all(R, [gen_strong_case(R.rng) for _ in range(R.n(200, 2000))], "strong", 250)
+    R.extra["strong_margins"] = {
+        "what": "worst |error| / first-order rounding bound seen in the strong family (tolerance = K x bound)",
+        "worst_ratio": {k: round(v, 3) for k, v in WORST.items()},
+        "K": {"rt": K_RT, "ap": K_AP, "rv": K_RV, "pivot": K_PV}}
     if R.thorough:
         ex = list(exhaustive_cases(5))
         run_all(R, ex, "exhaustive<=5", 4000)
@@ -304,6 +648,7 @@ def run(R: core.Run):
     if R.broken:
         R.search_batches += 1
         run_all(R, [gen_case(R.rng) for _ in range(R.n(1500, 6000))], "search", 500, oracle_only=True)
+        run_all(R, [gen_strong_case(R.rng) for _ in range(R.n(300, 1500))], "strong-search", 500, oracle_only=True)
     return {}, {}
 
 
@@ -315,13 +660,16 @@ def replay(data):
         print("replay: no case recorded (", data.get("no_longer_checks"), ")")
         return 1
     case = from_json(cj)
-    sess = X.Session(probes=case["probes"])
+    sess = (RTSession if is_strong(case) else X.Session)(probes=case["probes"])
     tr = sess.execute(case["ops"])
     lines = ["probes " + " ".join(X.qv(p) for p in case["probes"])] + [e["line"] for e in tr]
     out = core.run_model(X.MODE, lines)[1:]
+    if is_strong(case):
+        msg, tag = oracle_strong(case, tr)
+    else:
+        msg, tag = oracle(case, tr)
+        msg = msg or roundtrip_oracle(sess, case["probes"])
     d = compare(case, tr, out)
-    msg, tag = oracle(case, tr)
-    msg = msg or roundtrip_oracle(sess, case["probes"])
     for e, m in zip(tr, out):
         print("call :", e["line"][:100])
         print(" impl:", X.impl_record(e, 5)[:300])
